@@ -153,7 +153,7 @@ def main(tier, replay=None):
         # tandem repeats: the same component interval occurs several times in the source scaffold, so that distinct rows are EQUAL objects
         # (an edit must find "its" row by position, not by value)
         rng = random.Random(C.seed() + 9)
-        for sc0 in rng.sample(scen, min(cfg["rnd"], len(scen))):
+        for sc0 in rng.sample(scen, min(cfg["rnd"], 4000, len(scen))):
             src = [dict(r, name="c", s=11, e=10 + (r["e"] - r["s"] + 1)) if r["k"] == "F" else dict(r) for r in sc0["src"]]
             if sum(1 for r in src if r["k"] == "F") > 1:
                 scen.append({"src": src, "a": sc0["a"], "b": sc0["b"], "cls": "tandem-repeat"})
